@@ -316,7 +316,7 @@ func TestVerif_C03_Envelopes(t *testing.T) {
 // subscribers or the state, the honest sentinel that follows does.
 func TestVerif_C03_Store(t *testing.T) {
 	acct := vacct.Get("C03")
-	vacct.RapidCheck(t, vacct.N(4, 1200), func(rt *rapid.T) {
+	vacct.RapidCheck(t, vacct.N(6, 1200), func(rt *rapid.T) {
 		kind := rapid.SampledFrom([]string{"account", "multimember"}).Draw(rt, "kind")
 		w := vNewReplica(t, "W", nil)
 		defer w.close()
@@ -396,6 +396,18 @@ func TestVerif_C03_Store(t *testing.T) {
 			rt.Fatalf("harness: a member cannot append the forged entry: %v", err)
 		}
 		forgedID := e.GetHash().Bytes()
+		// dropped means: state unchanged, also while the forged entry is the newest one of the log (a later genuine
+		// entry re-indexes everything and could repair a state the forged entry had damaged)
+		if mid := vDumpGroupState(gc); mid != before {
+			acct.Violation("store/forged-event-applied/while-newest", "TestVerif_C03_Store", map[string]any{"group": kind, "forgery": pick.label, "msg": c04Diff(before, mid)})
+			rt.Fatalf("C03 forged-event-applied/while-newest: state changed by a forged entry (%s) that is the newest entry of the log:\n%s", pick.label, c04Diff(before, mid))
+		}
+		if err := m.Index().UpdateIndex(m.OpLog(), nil); err == nil {
+			if mid := vDumpGroupState(gc); mid != before {
+				acct.Violation("store/forged-event-applied/while-newest", "TestVerif_C03_Store", map[string]any{"group": kind, "forgery": pick.label, "msg": c04Diff(before, mid)})
+				rt.Fatalf("C03 forged-event-applied/while-newest: re-indexing a log whose newest entry is forged (%s) changed the state:\n%s", pick.label, c04Diff(before, mid))
+			}
+		}
 		// honest sentinel on the same ordered pipeline
 		sop, err := m.SendAppMetadata(vCtx, []byte("sentinel"))
 		if err != nil {
